@@ -205,6 +205,7 @@ def _m1_site(f: Func, call: ast.Call, res: RuleResult):
     if loop is None:
         res.bad(f, call, construct, "merge call is not inside the loop that accumulates the partials")
         return
+    cnt = _hoisted_ifexp(loop, cnt)
     expr = cnt
     note = ""
     if isinstance(cnt, ast.IfExp):
@@ -252,6 +253,7 @@ def _m1_site(f: Func, call: ast.Call, res: RuleResult):
                 "recognised by a null accumulator, which is_null detects for float and int64 data only - for int32/uint8/bool "
                 "values the initial value of a block without the group is merged as a real value")
         return
+    yc = _hoisted_ifexp(loop, yc)
     yexpr = yc.body if isinstance(yc, ast.IfExp) else yc
     upd = acc_after[0]
     added = upd.value if isinstance(upd, ast.AugAssign) else (upd.value.right if isinstance(upd.value, ast.BinOp) else upd.value)
@@ -261,6 +263,21 @@ def _m1_site(f: Func, call: ast.Call, res: RuleResult):
         res.bad(f, call, construct2,
                 f"y_counts is bound to {norm(yexpr)} but the counts accumulated after the merge are {norm(added)}: the "
                 f"emptiness test and the accumulated count refer to different partials")
+
+
+def _hoisted_ifexp(loop: ast.AST, e: ast.AST) -> ast.AST:
+    """`if t: x = A` / `else: x = B` ... `f(counts=x)`  is  `f(counts=A if t else B)`: a temporary that is assigned in both arms
+    of one if/else of the loop body (and nowhere else in it) stands for the conditional expression"""
+    if not isinstance(e, ast.Name):
+        return e
+    defs = [s_ for s_ in ast.walk(loop) if isinstance(s_, ast.Assign) and any(isinstance(t, ast.Name) and t.id == e.id for t in s_.targets)]
+    for i in ast.walk(loop):
+        if isinstance(i, ast.If) and i.orelse:
+            a = [s_ for s_ in i.body if s_ in defs]
+            b = [s_ for s_ in i.orelse if s_ in defs]
+            if len(a) == 1 and len(b) == 1 and len(defs) == 2:
+                return ast.copy_location(ast.IfExp(test=i.test, body=a[0].value, orelse=b[0].value), e)
+    return e
 
 
 def _is_param_not_none_flag(f: Func, name: str) -> bool:
